@@ -18,6 +18,7 @@ type envModel struct {
 	tokenOf    map[*value]tokenRef
 	nextDoc    int
 	docs       []*docToken
+	indented   map[*value]bool // encoders with SetIndent: they write documents
 	open       map[*value]*openFile
 	decoded    int
 	envVars    map[string]string
